@@ -1,6 +1,9 @@
 import DhcpProofs.Lemmas.V6NoPanic
+import DhcpProofs.Lemmas.V6Fuel
 import DhcpProofs.Lemmas.V4Opts
 import DhcpProofs.Props.C06
+import DhcpProofs.Props.C18
+import DhcpProofs.Props.C19
 /-
   C03 — no input can crash decoding or any read-only use of a decoded message.
 
@@ -12,21 +15,21 @@ import DhcpProofs.Props.C06
 
   Termination.  Every function below is accepted by Lean's termination checker
   (structural recursion on an explicit fuel argument; no `partial`, no
-  `decreasing_by`), so each is total: it returns on every input.  That the fuel
-  the entry points pass (`data.length + 1` for the option loops, `fuelFor data =
-  data.length + 2` for DHCPv6 nesting) is never exhausted — i.e. that the
-  out-of-fuel branch, which the Go code does not have, is unreachable — is
-  PROVED for the DHCPv4 option loop (`C03_optsLoop_fuel`, any two fuels above the
-  remaining length give the same result) and is NOT proved for DHCPv6: there it
-  is observed by the `v6dec` correspondence stream (the compiled model and the
-  Go code agree on every generated input, nested up to 64 levels) and by oracle
-  c03's watchdog on the implementation.
+  `decreasing_by`), so each is total: it returns on every input.  The model's
+  out-of-fuel branches, which the Go code does not have, are shown unreachable
+  with the fuel the entry points pass, as fuel irrelevance (more fuel never
+  changes the result): `C03_optsLoop_fuel` (DHCPv4 option loop),
+  `C03_dec6_fuel` / `C03_parseOption_fuel` / `C03_decOpts6_fuel` (DHCPv6 nesting:
+  one level costs two units of fuel and at least a four-byte option header) and
+  `C03_v6_loops_fuel` (the flat DHCPv6 loops: every iteration takes bytes off the
+  buffer); labels: `C03_label_terminates`.
 
-  Not modelled here (see `missing_part` in the evidence): String/Summary
+  Labels and raw frames: restated from C19 / C18, which own those models.
+  Not proved here (see `missing_part` in the evidence): String/Summary
   formatting, the ZTP/netboot string handling, typed accessors, builders, relay
-  handling, labels, raw frames — their models and theorems belong to the checks
-  C15–C19 (other files); for those operations C03's assurance is the crash
-  search of oracle c03 on the real code (recover + watchdog around every call).
+  handling, architecture lists — where models exist they belong to the checks
+  C15–C17; for those operations C03's assurance is the crash search of oracle
+  c03 on the real code (recover + watchdog around every call).
 -/
 namespace Dhcp.Props
 open Dhcp
@@ -80,6 +83,47 @@ theorem C03_decDUID (b : Bytes) : V6.decDUID b ≠ .panic := V6.decDUID_ne_panic
 
 /-- **C03 (rfc1035label.FromBytes), over the temporary label model.** -/
 theorem C03_labelFromBytes (b : Bytes) : Label.fromBytes b ≠ .panic := Label.fromBytes_ne_panic b
+
+/-- **C03 (label decoding terminates).** The `for` loop of `labelsFromBytes` returns
+within the fuel the model passes, on every buffer (compression pointers included):
+restated from C19. -/
+theorem C03_label_terminates (b : Bytes) :
+    ∃ r, Label.loop b (Label.fuelFor b) Label.init = some r ∧ Label.labelsFromBytes b = r :=
+  let ⟨r, h1, h2, _⟩ := Label.C19_terminates b
+  ⟨r, h1, h2⟩
+
+/-- **C03 (re-encoding a label set).** `(*Labels).ToBytes` never panics, whatever the
+fields hold (decoded or edited): restated from C19. -/
+theorem C03_labelToBytes (l : Label.Labels) : l.toBytesR ≠ .panic := Label.C19_toBytes_no_panic l
+
+/-- **C03 (raw IPv4/UDP frames).** No frame and no sequence of frames makes the raw
+connection's `ReadFrom` panic, for every bound address and every buffer length
+(0 included): restated from C18, whose model guards the negative `Consume`
+length that the unfixed code computed. -/
+theorem C03_rawRead (bound : Option Raw.Addr) (buflen : Nat) (frames : List Bytes) :
+    Raw.readFrom bound buflen frames ≠ .panic :=
+  (Raw.C18_read_no_panic bound buflen).2.2 frames
+
+/-- **C03 (termination of DHCPv6 decoding: nesting).** `fuelFor b = |b| + 2` is never
+exhausted: with any amount of additional fuel the three entry points return the
+same result, at any nesting depth the buffer can hold. -/
+theorem C03_dec6_fuel (b : Bytes) (k : Nat) : V6.decMsgF (V6.fuelFor b + k) b = V6.dec6 b := V6.dec6_fuel b k
+theorem C03_parseOption_fuel (code : Nat) (b : Bytes) (k : Nat) :
+    V6.parseOpt (V6.fuelFor b + k) code b = V6.parseOption code b := V6.parseOption_fuel code b k
+theorem C03_decOpts6_fuel (b : Bytes) (k : Nat) : V6.decOptsF (V6.fuelFor b + k) b = V6.decOpts b :=
+  V6.decOpts_fuel b k
+
+/-- **C03 (termination of DHCPv6 decoding: flat loops).** The option loop
+(`for buf.Has(4)`), and the `Has(2)` / `Has(16)` loops of the list-valued options,
+do not depend on their fuel once it exceeds the number of unread bytes; the
+decoders pass `data.length + 1`. -/
+theorem C03_v6_loops_fuel (f1 f2 : Nat) (l : Lexer) (h1 : l.data.length < f1) (h2 : l.data.length < f2) :
+    (∀ {α : Type} (p : Nat → Bytes → Res α) (acc : List α), V6.tlvLoop p f1 l acc = V6.tlvLoop p f2 l acc) ∧
+    (∀ acc, V6.u16Loop f1 l acc = V6.u16Loop f2 l acc) ∧
+    (∀ acc, V6.lenPrefLoop f1 l acc = V6.lenPrefLoop f2 l acc) ∧
+    (∀ acc, V6.ip16Loop f1 l acc = V6.ip16Loop f2 l acc) :=
+  ⟨fun p acc => V6.tlvLoop_fuel p f1 f2 l acc h1 h2, fun acc => V6.u16Loop_fuel f1 f2 l acc h1 h2,
+   fun acc => V6.lenPrefLoop_fuel f1 f2 l acc h1 h2, fun acc => V6.ip16Loop_fuel f1 f2 l acc h1 h2⟩
 
 /-- The no-panic statements hold at every fuel, not only the one the entry points
 pass: the argument does not depend on fuel sufficiency. -/
